@@ -32,7 +32,10 @@ def settings_ops(r, sid, chans, SR, spec):
             ops.append({"op": "sq.setDelay", "id": sid, "ch": ch, "v": enc(spec["delay"][ch] / SR)})
         if ch in spec["filt"]:
             k, o, fc = spec["filt"][ch]
-            ops.append({"op": "sq.setFilter", "id": sid, "ch": ch, "kind": k, "order": o, "orderIsInt": True, "f_cut": enc(fc), "tau": None})
+            if o == 2:      # given by its time constant
+                ops.append({"op": "sq.setFilter", "id": sid, "ch": ch, "kind": k, "order": o, "orderIsInt": True, "f_cut": None, "tau": enc(1 / fc)})
+            else:
+                ops.append({"op": "sq.setFilter", "id": sid, "ch": ch, "kind": k, "order": o, "orderIsInt": True, "f_cut": enc(fc), "tau": None})
     return ops
 
 
@@ -82,6 +85,14 @@ def bp_case(g):
         if r.random() < 0.8:
             ops.append({"op": "bp.setSegMarker", "id": "r", "name": nm, "specs": [q(r.randint(0, n - 1) / SR), q(r.randint(1, n) / SR)],
                         "mid": r.choice([1, 2])})
+    if len(n1) >= 2 and r.random() < 0.4:
+        # the first operand went through an edit history: a segment removed (and sometimes put back at the end)
+        ops.append({"op": "bp.remove", "id": "p", "name": r.choice(n1)})
+        # (absolute windows were placed for the longer blueprint and could now start beyond its end, where "nearest
+        # sample" means something else in the sum: cleared)
+        ops += [{"op": "bp.setMarker", "id": "p", "which": 1, "list": []}, {"op": "bp.setMarker", "id": "p", "which": 2, "list": []}]
+        if r.random() < 0.5:
+            ops.append({"op": "bp.insert", "id": "p", "pos": -1, "fn": "ramp", "args": [enc(0.5), enc(-0.5)], "dur": enc(r.randint(3, 9) / SR), "name": enc("again")})
     ops += [{"op": "bp.add", "a": "p", "b": "r", "to": "pr"}, {"op": "bp.desc", "id": "pr"}, {"op": "bp.desc", "id": "p"}]
     for x in ("p", "r", "pr"):
         ops += [{"op": "el.new", "id": "e" + x}, {"op": "el.addBP", "id": "e" + x, "ch": 1, "bp": x},
@@ -124,6 +135,10 @@ def case(g, tier, ci):
     dl, fl, tm = r.choice(opts)
     for x in ("a", "b", "ab"):
         ops.append({"op": "sq.forge", "id": x, "delays": dl, "filters": fl, "time": tm, "_f": x})
+    # the sum was forged (all option combinations that run the filters included): the operands are what they were
+    ops += [{"op": "sq.forge", "id": "ab", "delays": True, "filters": True, "time": False},
+            {"op": "sq.desc", "id": "b", "_tag": "b2"}, {"op": "sq.add", "a": "a", "b": "b", "to": "ab_again", "_errclass": True},
+            {"op": "sq.desc", "id": "ab_again"}]
     ops += [{"op": "sq.add", "a": "ab", "b": "c", "to": "ab_c"}, {"op": "sq.add", "a": "b", "b": "c", "to": "bc"},
             {"op": "sq.add", "a": "a", "b": "bc", "to": "a_bc"},
             # == raises on raw-array channels (numpy truth value), so associativity is observed through
